@@ -184,6 +184,8 @@ def _to_py(sd, pd):
             return float(frac(v))
         return int(v) if v % 2 == 0 else np.int64(v)
     if k == "mb":
+        if (sum(pd[1]) + len(pd[1])) % 3 == 1:
+            return np.array(pd[1], dtype=bool)       # a boolean mask: a member of MultiBinary like the int8 array
         return np.array(pd[1], dtype=np.int8)
     if k == "md":
         return np.array(pd[1], dtype=np.int64)
@@ -286,7 +288,7 @@ def canon_array(x):
         x = np.asarray(x)          # a numpy scalar is a 0-d array (what numpy returns for shape ())
     if not isinstance(x, np.ndarray):
         return BAD
-    if x.dtype.kind in "iu":
+    if x.dtype.kind in "iub":                   # (b: a boolean mask reads as 0 / 1, as gymnasium and numpy read it)
         vals = [int(v) for v in x.flatten().tolist()]
     elif x.dtype.kind == "f":
         vals = []
